@@ -1,6 +1,7 @@
 package httpgen
 
 import (
+	"strconv"
 	"strings"
 
 	"google.golang.org/protobuf/compiler/protogen"
@@ -71,9 +72,10 @@ func (g *Generator) collectMessageFieldExamples(gf *protogen.GeneratedFile, mess
 		examples := annotations.GetFieldExamples(field)
 		if len(examples) > 0 {
 			fieldPath := messagePath + "." + string(field.Desc.Name())
-			gf.P(`"`, fieldPath, `": {`)
+			gf.P(strconv.Quote(fieldPath), `: {`)
 			for _, example := range examples {
-				gf.P(`"`, example, `",`)
+				// examples are free text: quote them so that they cannot break the generated source
+				gf.P(strconv.Quote(example), `,`)
 			}
 			gf.P("},")
 		}
